@@ -23,7 +23,7 @@ from xmlschema.aliases import ComponentClassType, ElementType, \
     AtomicValueType, SchemaType, DecodedValueType, NsmapType
 from xmlschema.exceptions import XMLSchemaValueError
 from xmlschema.translation import gettext as _
-from xmlschema.utils.decoding import EmptyType
+from xmlschema.utils.decoding import EmptyType, value_space_equal
 from xmlschema.utils.qnames import get_namespace, get_qname
 
 from .exceptions import XMLSchemaCircularityError
@@ -255,9 +255,9 @@ class XsdAttribute(XsdComponent, ValidationMixin[Optional[str], DecodedValueType
         if self.fixed is not None:
             if obj is None:
                 obj = self.fixed
-            elif obj != self.fixed and \
-                    self.type.text_decode(obj, context=context) != \
-                    self.type.text_decode(self.fixed):
+            elif obj != self.fixed and not value_space_equal(
+                    self.type.text_decode(obj, context=context),
+                    self.type.text_decode(self.fixed)):
                 msg = _("attribute {0!r} has a fixed value {1!r}").format(self.name, self.fixed)
                 context.validation_error(validation, self, msg, obj)
 
